@@ -234,6 +234,7 @@ func newLinMonKind[T comparable](c *core.Ctx, kind int) *LinMon[T] {
 func runLinTyped[T comparable](c *core.Ctx, kind int, tname string, next func() T) {
 	m := newLinMonKind[T](c, kind)
 	c.Count("elemtype:"+tname, 1)
+	c.Count("elemtype:"+tname+":"+m.Name, 1)
 	for s := c.R.Range(20, 150); s > 0; s-- {
 		m.Step(next)
 	}
@@ -250,10 +251,10 @@ var linElemTypes = []string{"fat-struct", "string", "struct", "pointer"}
 
 func runC05(c *core.Ctx) {
 	i := c.Index
-	if i%29 == 13 && i >= len(ringPlan)+5 {
+	if i%29 == 13 && i >= len(ringPlan)+14 {
 		id := 0
 		c.SetGaps((i/6)%2 == 1)
-		switch (i / 29) % 4 {
+		switch core.Mix(uint64(i), 0xe1e)%4 { // (by hash: index arithmetic would tie the type to the container kind)
 		case 0:
 			runLinTyped(c, i, "fat-struct", func() Fat { id++; f := Fat{ID: id}; f.Pad[0], f.Pad[599] = int64(id), int64(-id); return f })
 		case 1:
@@ -267,6 +268,10 @@ func runC05(c *core.Ctx) {
 	}
 	if h := i - len(ringPlan); h >= 0 && h < 5 {
 		runHugeLinear(c, 3+h, hugeLinearN(c.Tier)) // stacks, queues and a ring with 300 000 elements
+		return
+	}
+	if h := i - len(ringPlan) - 5; h >= 0 && h < 9 {
+		runMillionOps(c, []int{0, 1, 2, 3, 4, 9, 14, 19, 24}[h]) // four containers and five ring capacities through 2^20 put/take pairs
 		return
 	}
 	if i < len(ringPlan) {
@@ -369,6 +374,7 @@ func init() {
 		Title: "Stacks are LIFO, queues FIFO, the circular buffer a bounded FIFO",
 		Cases: func(tier string) int { return tierN(tier, 40000, 4000000) },
 		Run:   runC05,
+		ParSkip: func(string) int { return len(ringPlan) + 14 },
 		Rule: fmt.Sprintf("cases 0..%d: ring sweep, one case per (capacity, start offset) for capacities %v, each visiting every fill level 0..capacity and continuing randomly (quick runs capacities <= 17 fully and every 7th larger one); "+
 			"the other cases: random interleavings of Push/Pop/Peek or Enqueue/Dequeue/Peek and Clear with unique item ids on ArrayStack, LinkedListStack, ArrayQueue, LinkedListQueue, CircularBuffer, followed by a full drain. "+
 			"Non-trivial: the case made calls and every one was followed by the Values/Size/Empty/Full comparison; distinct = distinct hash of the call list.", len(ringPlan)-1, ringCaps),
@@ -379,8 +385,12 @@ func init() {
 			f.atLeast("obs:take-on-empty", 1000)
 			f.atLeast("obs:take", 20000)
 			f.atLeast("obs:big-ring-ragged-fill", 20)
+			f.atLeast("obs:million-operation-instances", 9)
 			for _, n := range linElemTypes {
 				f.atLeast("elemtype:"+n, 100)
+				for _, k := range []string{"ArrayStack", "LinkedListStack", "ArrayQueue", "LinkedListQueue", "CircularBuffer"} {
+					f.atLeast("elemtype:"+n+":"+k, 5)
+				}
 			}
 			for _, n := range []string{"ArrayStack.Pop", "LinkedListStack.Pop", "ArrayQueue.Dequeue", "LinkedListQueue.Dequeue", "CircularBuffer.Dequeue", "CircularBuffer.Clear"} {
 				f.atLeast("call:"+n, 500)
